@@ -1115,6 +1115,47 @@ def c06(ctx: Ctx) -> None:
     ctx.rule('C06-R6', 'a RuntimeError of the cross-loop bridge (computing loop closed) leads back to the retry head, never to the caller', 1)
     ctx.rule('C06-R7', 'every exception/cancel edge of the wrapped call passes the wake-up of the waiters', 1)
     ctx.rule('C06-R8', 'a miss of the cache mapping (KeyError of a probe - the mapping may evict) never leaves the wrapper', 1)
+    ctx.rule('C06-R9', 'the wrapper raises nothing of its own: every raise statement that can reach the caller re-raises what was caught', 1)
+    # "no caller ever observes an exception that originates in the cache's own bookkeeping": a `raise X(...)` written in the
+    # wrapper (or a helper it runs inline) whose exception can leave the wrapper is such an exception, whatever the reason
+    raises_ = [n for n in g.nodes if n.kind == 'raise']
+    own_ = []
+    for n in raises_:
+        exc_ = n.ast.exc if isinstance(n.ast, ast.Raise) else None
+        if exc_ is None:
+            continue            # bare re-raise
+        h_ = n.ast
+        caught_ = set()
+        while h_ is not None and not isinstance(h_, (ast.FunctionDef, ast.AsyncFunctionDef, ast.Lambda)):
+            if isinstance(h_, ast.ExceptHandler) and h_.name:
+                caught_.add(h_.name)
+            h_ = parent(h_)
+        if isinstance(exc_, ast.Name) and exc_.id in caught_:
+            continue            # `raise e` of the handler's own exception
+        par_ = parent(n.ast)
+
+        def narrowing(t) -> bool:
+            if isinstance(t, ast.BoolOp):
+                return all(narrowing(v) for v in t.values)
+            return isinstance(t, ast.Compare) and len(t.ops) == 1 and isinstance(t.ops[0], ast.Is) and isinstance(t.left, ast.Name) \
+                and isinstance(t.comparators[0], ast.Constant) and t.comparators[0].value is None
+        if isinstance(par_, ast.If) and par_.body and par_.body[0] is n.ast and narrowing(par_.test):
+            # `if x is None: raise ...` on locals is the statement form of `assert x is not None` (assumed to hold, DESIGN 2.2):
+            # where the local can be None the very next use fails anyway
+            continue
+        ee_ = [e for e in g.succ[n.id] if e.label == 'exc']
+
+        from .common import exception_escapes
+        if any(exception_escapes(g, e) for e in ee_) and find_path(g, [g.entry], [n]) is not None:
+            # (a "cannot happen" raise behind a test that is never true is not a way out)
+            own_.append(n)
+    for n in own_:
+        ctx.violation('C06-R9', f'{norm(n.ast)[:90]}', _loc(g, n),
+                      'an exception made by the cache itself can reach a caller: the call ends in a fourth way (not the value, not the wrapped '
+                      'function\'s own exception, not the caller\'s cancellation)',
+                      witness=render(g, find_path(g, [g.entry], [n])), construct=construct_key(r.wrapper.qualname, 'own exception', n.ast.exc))
+    if not own_:
+        ctx.holds('C06-R9', f'{len(raises_)} raise statement(s) in the wrapper: bare re-raises, or caught inside the wrapper', _loc(g, g.entry))
     if not _require_table(ctx, r, 'C06-R1'):
         _publish_roles(ctx, r)
         return
